@@ -152,6 +152,18 @@ CATALOGUE = [
      "                    if dnet in router_info.dnets:\n                        del router_info.dnets[dnet]\n                if not router_info.dnets:\n                    del self.routers[snet][address]"),
     ('C19', 'sadr-learning-disabled', 'bacpypes/netservice.py', "            # pass this new path along to the cache\n            self.router_info_cache.update_router_info(adapter.adapterNet, npdu.pduSource, [snet])", "            # pass this new path along to the cache\n            pass"),
     ('C19', 'pending-check-first-again', 'bacpypes/netservice.py', "        if (not router_info) and (dnet in self.pending_nets):", "        if (dnet in self.pending_nets):"),
+    # ---- C16
+    ('C16', 'increment-filter-strict-gt', 'bacpypes/service/cov.py', "        value_changed = (new_value <= (self.previous_reported_value - self.obj.covIncrement)) \\\n            or (new_value >= (self.previous_reported_value + self.obj.covIncrement))",
+     "        value_changed = (new_value < (self.previous_reported_value - self.obj.covIncrement)) \\\n            or (new_value > (self.previous_reported_value + self.obj.covIncrement))"),
+    ('C16', 'previous-reported-not-updated', 'bacpypes/service/cov.py', "        # when sending out notifications, keep the current value\n        self.previous_reported_value = self.presentValue", "        # when sending out notifications, keep the current value\n        pass"),
+    # (equivalent, not listed: leaving the expiry task installed on cancel only produces a swallowed exception at expiry)
+    ('C16', 'cancel-keeps-subscription', 'bacpypes/service/cov.py', "            if cancel_subscription:\n                if _debug: ChangeOfValueServices._debug(\"    - cancel the subscription\")\n                self.cancel_subscription(cov)", "            if cancel_subscription:\n                pass", 2),
+    ('C16', 'time-remaining-from-lifetime', 'bacpypes/service/cov.py', "                time_remaining = int(cov.taskTime - current_time)\n\n                # make sure it is at least one second\n                if not time_remaining:\n                    time_remaining = 1\n\n            # build a request with the correct type",
+     "                time_remaining = int(cov.lifetime)\n\n            # build a request with the correct type"),
+    ('C16', 'renew-keeps-old-lifetime-again', 'bacpypes/service/cov.py', "        # the new lifetime replaces the old one\n        self.lifetime = lifetime or 0\n", "        lifetime = lifetime or 0\n"),
+    ('C16', 'no-initial-notification', 'bacpypes/service/cov.py', "        if not cancel_subscription:\n            if _debug: ChangeOfValueServices._debug(\"    - send a notification\")\n            deferred(cov_detection.send_cov_notifications, cov)", "        if False:\n            pass", 2),
+    ('C16', 'status-flags-not-tracked', 'bacpypes/service/cov.py', "class GenericCriteria(COVDetection):\n\n    properties_tracked = (\n        'presentValue',\n        'statusFlags',\n        )", "class GenericCriteria(COVDetection):\n\n    properties_tracked = (\n        'presentValue',\n        )"),
+    ('C16', 'active-list-skips-indefinite', 'bacpypes/service/cov.py', "        for cov in obj._app.subscriptions():\n            # calculate time remaining\n            if not cov.lifetime:\n                time_remaining = 0", "        for cov in obj._app.subscriptions():\n            # calculate time remaining\n            if not cov.lifetime:\n                continue"),
     # ---- C12
     ('C12', 'window-max-instead-of-min', 'bacpypes/appservice.py', "        self.actualWindowSize = min(apdu.apduWin, self.ssmSAP.proposedWindowSize)\n        if _debug: ServerSSM._debug(",
      "        self.actualWindowSize = max(apdu.apduWin, self.ssmSAP.proposedWindowSize)\n        if _debug: ServerSSM._debug("),
